@@ -86,6 +86,8 @@ __CPROVER_assigns(state->pos)
 __CPROVER_ensures(MONO(state))
 __CPROVER_ensures(RET == (LEX_ATEND(state) ? -DISP(state) : DISP(state)))
 __CPROVER_ensures(DISP(state) > 0 ==> ISALPHA(POS0(state)[0]))
+/* the last byte consumed is a mnemonic character (callers need: a header never ends in CR/LF) */
+__CPROVER_ensures(DISP(state) > 0 ==> ISMNE(state->pos[-1]))
 CONTENT_ENS(CONSUMED(state) ==> ISMNE(state->buffer[gh_li]))
 __CPROVER_ensures(LEX_ATEND(state) || (DISP(state) == 0 ? !ISALPHA(state->pos[0]) : !ISMNE(state->pos[0])))
 ;
@@ -143,6 +145,7 @@ __CPROVER_ensures(DISP(state) == 0 ==> (LEX_ATEND(state) || state->pos[0] != '*'
 __CPROVER_ensures(RET == SKIP_INCOMPLETE_ <==> DISP(state) == 1)
 CONTENT_ENS((CONSUMED(state) && (long) gh_li > IDX(state, POS0(state))) ==> ISMNE(state->buffer[gh_li]))
 __CPROVER_ensures(DISP(state) > 1 ==> (ISALPHA(POS0(state)[1]) && NEXT_NOT(state, ISMNE)))
+__CPROVER_ensures(DISP(state) > 1 ==> ISMNE(state->pos[-1]))
 ;
 static int skipCompoundProgramHeader(lex_state_t * state)
 __CPROVER_requires(LEX_PRE(state))
@@ -153,6 +156,7 @@ __CPROVER_ensures(RET == SKIP_NONE_ <==> DISP(state) == 0)
 CONTENT_ENS(CONSUMED(state) ==> (ISMNE(state->buffer[gh_li]) || state->buffer[gh_li] == ':'))
 __CPROVER_ensures(DISP(state) > 0 ==> (POS0(state)[0] == ':' || ISALPHA(POS0(state)[0])))
 __CPROVER_ensures(DISP(state) == 0 ==> (LEX_ATEND(state) || !(state->pos[0] == ':' || ISALPHA(state->pos[0]))))
+__CPROVER_ensures(DISP(state) > 0 ==> (ISMNE(state->pos[-1]) || state->pos[-1] == ':'))
 ;
 
 /* ---- tokens --------------------------------------------------------------------------- */
@@ -191,6 +195,8 @@ __CPROVER_ensures(token->type == SCPI_TOKEN_UNKNOWN ==> TOK_REJECT(state, token)
 __CPROVER_ensures(token->type != SCPI_TOKEN_UNKNOWN ==> (TOK_SPAN(state, token) && token->len > 0))
 BYTE_ENS(IS_COMMON_TYPE(token->type) <==> (token->len > 0 && token->ptr[0] == '*'))
 __CPROVER_ensures(IS_QUERY_TYPE(token->type) ==> token->len >= 2)
+/* last byte of a header: mnemonic character, ':', '*' or '?' - in particular never CR or LF */
+__CPROVER_ensures(token->type != SCPI_TOKEN_UNKNOWN ==> (ISMNE(token->ptr[token->len - 1]) || token->ptr[token->len - 1] == ':' || token->ptr[token->len - 1] == '*' || token->ptr[token->len - 1] == '?'))
 BYTE_ENS(IS_QUERY_TYPE(token->type) ==> token->ptr[token->len - 1] == '?')
 BYTE_ENS((token->type == SCPI_TOKEN_COMMON_PROGRAM_HEADER || token->type == SCPI_TOKEN_COMPOUND_PROGRAM_HEADER) ==> (LEX_ATEND(state) || state->pos[0] != '?'))
 BYTE_ENS(token->type == SCPI_TOKEN_UNKNOWN ==> (LEX_ATEND(state) || !(state->pos[0] == '*' || state->pos[0] == ':' || ISALPHA(state->pos[0]))))
